@@ -270,6 +270,7 @@ var enumFrom, enumTo = -1, -1
 func runBatch(eng Engine, seed uint64, checks int, tier string, skip int, isolate bool, curPath string) *BatchResult {
 	res := &BatchResult{Engine: eng.Name(), Seed: seed, Checks: checks, Stats: NewStats()}
 	st := res.Stats
+	curTier, curBatchSeed = tier, seed
 	if en, ok := eng.(Enumerator); ok && enumFrom >= 0 {
 		cases := en.Enumerate(tier)
 		for i := enumFrom; i < enumTo && i < len(cases); i++ {
@@ -901,6 +902,12 @@ func checkMain(a map[string]string) int {
 }
 
 var childTimeout time.Duration
+
+// tier and PRNG value of the batch being run (read by Preflight implementations)
+var (
+	curTier      string
+	curBatchSeed uint64
+)
 
 var (
 	childMu   sync.Mutex
